@@ -179,4 +179,22 @@ PROPS = {
         "level_note": "Trusted: Coq kernel + vm_compute; connector remapping functions enter as their contract (checked exhaustively per case on the implementation, not proved from a model of the loops); hand model tied by differential testing.",
         "technique": "machine-checked proof in Coq (permutation characterisation of parse; simulation proof of renaming invariance; composition over histories) + checked model/code correspondence on operation histories",
     },
+    "C07": {
+        "theorems": ["c07_scorer_correct", "c07_trie_wellformed", "c07_raw_cost"],
+        "check_targets": ["Check/C07Check.vo"],
+        "case_type": "c07case",
+        "report_fn": "c07_report",
+        "harness": "C07",
+        "avx2": True,
+        "n": {"quick": 400, "thorough": 10000},
+        "rule": "cases = generated bigram models: 1-19 templates (most often 8-12), 1-4 ids per side, ragged rows, feature strings shared across positions and position-tagged, quoted cells (comma, double quote), the empty feature, '*', multi-byte text, duplicate rows, dense/sparse cost tables incl. BOS/EOS pairs (''/x, x/'', ''/''), cross-position and unused pairs, 1 in 8 with costs up to 200000 (dual judged only when every partial sum fits 16 bits), 1 in 10 listing '*' as a feature (known-finding class K3); built as raw and dual dictionary and as matrix.def materialised from the defining sums; every id pair read through the conn_cost hook; portable and AVX2 harness builds; non-trivial: at least 3 non-zero connection costs",
+        "trusted_base": [
+            "modelled, not verified: DualConnector (its template split depends on hash-set order; it is compared with the defining sum for every id pair, not modelled), AVX2 intrinsics (the AVX2 build is compared with the same specification), csv-core for quoted cells (the harness renders the rows)",
+            "the step from feature ids to feature strings (interning is injective, so lane sums over ids equal the defining sum over strings) is not a Coq theorem: it is checked on every case (model = implementation = defining sum for every id pair)",
+        ],
+        "assumptions": ["fewer than 2^31-1 distinct features per side (INVALID_FEATURE_ID is never a key)", "'*' is not listed as a feature in bigram.cost (otherwise known finding K3)", "no feature contains '/' (bigram.cost syntax)"],
+        "level_text": "Coq theorems: c07_scorer_correct (the XOR double array built by ScorerBuilder::build — bases, check_base search, placement — answers every pair of keys, listed or not, exactly like the two-level trie: invariant over the processed first-level keys, positions of one key are distinct because xor cancels, new positions are free by check_base), c07_trie_wellformed (tries read from bigram.cost satisfy the premise), c07_raw_cost (the raw connector's cost is the lane-by-lane sum of trie entries; padding lanes with the invalid id add nothing). Tied to the code on every run: the model of RawConnector::from_readers (interning, trie, double array, BOS row, padding, accumulate) must give the real connector's cost for every id pair, and the oracle compares the real raw AND dual connectors, portable and AVX2 builds, with the defining feature-pair sum for every id pair, plus identical optima of raw / dual / materialised-matrix dictionaries.",
+        "level_note": "Partial: the dual connector and the AVX2 path are decided by the differential oracle against the defining sum (all id pairs of every case), not by a theorem. Trusted: Coq kernel + vm_compute; arrays checks/costs modelled as one position->(check,cost) map.",
+        "technique": "machine-checked proof in Coq (double-array invariant with xor cancellation) + checked model/code correspondence and specification oracle on every id pair",
+    },
 }
